@@ -455,7 +455,9 @@ func (c *c10Fz) stmt() string {
 			return "repr(L2)"
 		}
 		kind("recursive-structures")
-		return g.Str("L2.append(L2)\nrepr(L2)", "L2.append(L2)\nL2 == L2", "D['self'] = D\nrepr(D)", "L2.append(L2)\nL3 = [1, 2, 'x']\nL3.append(L3)\nL2 == L3", "L.append(L)\nL.sort()", "L.append(L)\nL.count(L)", "L.append(L)\nsorted(L, key="+c.cb()+")", "T2 = (L2,)\nL2.append(T2)\nrepr(T2)", "L2.append(L2)\nstr(L2) in L2", "L2.append(L2)\nL2 * 3")
+		return g.Str("L2.append(L2)\nrepr(L2)", "L2.append(L2)\nL2 == L2", "D['self'] = D\nrepr(D)", "L2.append(L2)\nL3 = [1, 2, 'x']\nL3.append(L3)\nL2 == L3", "L.append(L)\nL.sort()", "L.append(L)\nL.count(L)", "L.append(L)\nsorted(L, key="+c.cb()+")", "T2 = (L2,)\nL2.append(T2)\nrepr(T2)", "L2.append(L2)\nstr(L2) in L2", "L2.append(L2)\nL2 * 3",
+			"D['self'] = D\n"+g.Str("'%s'", "'%r'", "'%c'", "'%d'", "'%5.2f'", "'%z'", "'{}'")+" % ("+g.Str("D", "cb", "inst", "T, cb(0, 0, 1)", "M(0, 0, D)", "sys", "K")+",)",
+			"D['self'] = D\n"+g.Str("D[D]", "D[L]", "del D[D]", "D.get(D)", "D in D", "inst.d = D\nrepr(inst)", "K.d = D\nrepr(K)\nstr(K())", "KeyError(D)", "raise KeyError(D)", "print(D)", "'{}'.format(D)", "'{0[self]}'.format(D)", "format(D)", "str(sys.modules)", "repr(globals())", "str(locals())", "dir()", "vars()"))
 	case 36:
 		kind("dict-views-and-mutation")
 		return g.Str("_v = D.keys()\nact("+c.k()+")\nlist(_v)", "_v = D.items()\nD.clear()\nlen(_v)", "_i = iter(D)\nact("+c.k()+")\nnext(_i)", "_i = iter(S)\nact("+c.k()+")\nnext(_i)", "_i = iter(L)\nact("+c.k()+")\nnext(_i)\nnext(_i)", "_i = reversed(L)\nact("+c.k()+")\nnext(_i)", "_i = iter(L)\nact(1)\nlist(_i)", "D.popitem()", "_i = enumerate(L)\nact("+c.k()+")\nlist(_i)", "_i = zip(L, "+c.gen()+")\nact("+c.k()+")\nlist(_i)")
